@@ -24,10 +24,10 @@ Footprint(c) == FootprintOf(c, Covered, Symlinks)
 Cmds ==
    {[kind |-> k, targets |-> {}, out |-> ""] : k \in Readers}
    \cup {[kind |-> "spdx-o", targets |-> {}, out |-> "out.spdx"]}
-   \cup {[kind |-> "annotate", targets |-> T, out |-> ""] : T \in {{"src/a.py"}, {"link.py"}, {"src/a.py", "bin.dat"}, {"docs/readme.md", "link.py"}, {"src/c.py"}}}
+   \cup {[kind |-> "annotate", targets |-> T, out |-> ""] : T \in {{"src/a.py"}, {"link.py"}, {"src/a.py", "bin.dat"}, {"docs/readme.md", "link.py"}, {"src/c.py"}, {"bin2.dat", "data.unknownext"}}}
    \cup {[kind |-> "annotate-r", targets |-> T, out |-> ""] : T \in {{""}, {"src"}, {"linkdir"}, {"docs"}, {"src/a.py"}, {"link.py", "docs"}}}
    \cup {[kind |-> "convert-dep5", targets |-> {}, out |-> ""]}
-   \cup {[kind |-> "download", targets |-> T, out |-> ""] : T \in {{"0BSD"}, {"MIT"}, {"0BSD", "ISC"}}}
+   \cup {[kind |-> "download", targets |-> T, out |-> ""] : T \in {{"0BSD"}, {"MIT"}, {"0BSD", "ISC"}, {"../docs/MIT"}}}
    \cup {[kind |-> "download-src", targets |-> T, out |-> ""] : T \in {{"LicenseRef-custom"}, {"LicenseRef-new"}}}
 
 Init == fs = [p \in All |-> 0] /\ hist = <<>>
